@@ -7,7 +7,9 @@
 import Gama.Lemmas.Gkf
 import Gama.Lemmas.GkfDiag
 import Gama.Lemmas.Literals
+import Gama.Lemmas.LiteralsComplete
 import Gama.Lemmas.GkfCov
+import Gama.Lemmas.GkfCovBounds
 import Gama.Lemmas.GkfGrammar
 namespace Gama.Props.C11
 open Gama Gama.Gkf Gama.Lit Gama.Cov
@@ -74,36 +76,110 @@ theorem C11_accepts_grammar (d : Doc) (hv : d.valid = true) :
 
 /-! ### numeric literals
 
-  Full statement wanted:  `isFloat s = true ↔ FloatLang s`  where
-  `FloatLang = ws* [+-]? (d+ ('.' d*)? | '.' d+) ([eE][+-]?d+)? ws*`  (Lemmas/Literals.lean).
-  Proved: the soundness direction (accepted ⇒ in the documented format, hence `atof` reads the whole
-  trimmed string).  Missing: completeness (format ⇒ accepted); it is covered by the exhaustive
-  correspondence on all strings of length ≤ 5/6 over {0,1,9,+,-,.,e,E,' ',x} and the examples below. -/
+  The recognisers of intfloat.h / CoreParser accept EXACTLY the documented formats, for all strings
+  (soundness: Lemmas/Literals.lean, completeness: Lemmas/LiteralsComplete.lean; induction over the scanner
+  functions `skipWs`, `dropBack`, `skipSign`, `skipDigits`, `expPart`, no enumeration).
+  `FloatLang = ws* [+-]? (d+ ('.' d*)? | '.' d+) ([eE][+-]?d+)? ws*`, hence `atof` reads the whole trimmed string. -/
 
-theorem C11_isFloat_spec_partial (s : List Char) (h : isFloat s = true) : FloatLang s := isFloat_sound s h
+/-- `IsFloat` accepts a string iff it is `ws* [+-]? d* '.'? d* ([eE][+-]?d+)? ws*` with at least one mantissa digit -/
+theorem C11_isFloat_spec (s : List Char) : isFloat s = true ↔ FloatLang s := isFloat_iff s
 
-/-- accepted by IsInteger ⇒ `ws* [+-]? d* ws*`, not blank.  NB the language contains a lone sign
-    (`"+"`, `"-"`): the pinned C++ accepts it and `atoi` yields 0 (finding, patch proposed by C18); the model reads
-    from the source whether the guard after the sign is present (`intLoneSignRejected`). -/
-theorem C11_isInteger_spec_partial (s : List Char) (h : isInteger s = true) : IntLang s := isInteger_sound s h
+/-- the core of `FloatLang` is the textbook shape `[+-]? (d+ ('.' d*)? | '.' d+) ([eE][+-]?d+)?` -/
+theorem C11_floatCore_textbook (t : List Char) :
+    FloatCore t ↔ ∃ sg m ex, t = sg ++ (m ++ ex) ∧ SignOpt sg ∧ Mantissa m ∧ ExpOpt ex :=
+  floatCore_iff_mantissa t
 
-/-- accepted by CoreParser::toIndex ⇒ `ws* d+ ws*` and the value is the digit string read in base 10 -/
-theorem C11_toIndex_spec_partial (s : List Char) (v : Nat) (h : toIndex s = some v) : IndexLang s v :=
-  toIndex_sound s v h
+/-- `IsInteger` accepts exactly `ws* [+-]? d+ ws*`.  The language follows the source: the guard
+    `if (b == e) return false;` after the optional sign is read by the translator (`intLoneSignRejected`, now `true`:
+    a lone `"+"`/`"-"` is refused); the proof unfolds the flag and fails if the guard disappears. -/
+theorem C11_isInteger_spec (s : List Char) : isInteger s = true ↔ IntLang s := isInteger_iff s
+
+/-- … and for either value of the generated flag: without the guard the language is `ws* [+-]? d* ws*`, not blank
+    (`IntLangOf false`), with it `ws* [+-]? d+ ws*` (`IntLangOf true`) -/
+theorem C11_isInteger_spec_flag (s : List Char) : isInteger s = true ↔ IntLangOf intLoneSignRejected s :=
+  isInteger_iff_flag s
+
+/-- `CoreParser::toIndex` accepts exactly `ws* d+ ws*` and the value is the digit string read in base 10 -/
+theorem C11_toIndex_spec (s : List Char) (v : Nat) : toIndex s = some v ↔ IndexLang s v := toIndex_iff s v
 
 /-! ### cov-mat element accounting
 
-  Full statement wanted: an accepted `<cov-mat>` supplies exactly `dim*(band+1) - band*(band+1)/2` numbers and the
-  fill loop writes every entry (r, c), 1 ≤ r ≤ c ≤ min(dim, r+band) exactly once.
-  Proved: exactly `covElements dim band` words, all floats, one write per word, each write within the band of its
-  row (`r ≤ c ≤ r + band`).  Missing: `c ≤ dim` / the writes are exactly the band positions, i.e. the closed formula
-  equals the number of band entries (checked below by `decide` for all dim ≤ 5 as an example, and by the
-  correspondence on generated dim/band/text triples). -/
-theorem C11_cov_count_partial (dim band : Nat) (text : List Char) (ps : List (Nat × Nat))
+  An accepted `<cov-mat dim band>` supplies exactly `dim*(band+1) - band*(band+1)/2` numbers and the fill loop writes
+  every entry (r, c), 1 ≤ r ≤ c ≤ min(dim, r+band), exactly once, row by row; nothing else is written
+  (Lemmas/GkfCov.lean, Lemmas/GkfCovBounds.lean).  `process_cov` guarantees `1 ≤ dim`, `band < dim`
+  (`band < dim` alone implies `1 ≤ dim`, so only it is a hypothesis). -/
+
+/-- for any dim/band: exactly `covElements` words, all floats, one write per word, each within the band of its row -/
+theorem C11_cov_count (dim band : Nat) (text : List Char) (ps : List (Nat × Nat))
     (h : finishCov dim band text = .ok ps) :
     (words text).length = covElements dim band ∧ ps.length = covElements dim band ∧
     (∀ w ∈ words text, isFloat w = true) ∧ ∀ q ∈ ps, q.1 ≤ q.2 ∧ q.2 ≤ q.1 + band :=
-  fill_ok dim band (words text) _ (1, 1) ps ⟨Nat.le_refl _, by simp⟩ h
+  fill_ok dim band (words text) _ (1, 1) ps ⟨Nat.le_refl _, Nat.le_add_right _ _⟩ h
+
+/-- the writes of an accepted text stay inside the matrix and its band, are pairwise distinct and are EXACTLY the
+    upper band positions enumerated row by row -/
+theorem C11_cov_fill_in_bounds (dim band : Nat) (text : List Char) (ps : List (Nat × Nat)) (hb : band < dim)
+    (h : finishCov dim band text = .ok ps) :
+    (words text).length = covElements dim band ∧ ps.length = covElements dim band ∧
+    (∀ w ∈ words text, isFloat w = true) ∧
+    (∀ q ∈ ps, 1 ≤ q.1 ∧ q.1 ≤ q.2 ∧ q.2 ≤ dim ∧ q.2 ≤ q.1 + band) ∧
+    ps.Nodup ∧
+    ps = (List.range dim).flatMap (fun r =>
+           (List.range (min dim (r + 1 + band) - r)).map (fun k => (r + 1, r + 1 + k))) := by
+  obtain ⟨h1, h2, h3⟩ := finishCov_ok dim band text ps hb h
+  subst h3
+  exact ⟨h1, bandPositions_length dim band hb, h2, fun q hq => (mem_bandPositions dim band q).mp hq,
+    bandPositions_nodup dim band hb, rfl⟩
+
+/-- every entry of the upper band is written (and, by `Nodup` above, exactly once), nothing outside it -/
+theorem C11_cov_writes_exactly_band (dim band : Nat) (text : List Char) (ps : List (Nat × Nat)) (hb : band < dim)
+    (h : finishCov dim band text = .ok ps) (q : Nat × Nat) :
+    q ∈ ps ↔ (1 ≤ q.1 ∧ q.1 ≤ q.2 ∧ q.2 ≤ dim ∧ q.2 ≤ q.1 + band) := by
+  rw [(finishCov_ok dim band text ps hb h).2.2]; exact mem_bandPositions dim band q
+
+/-- the closed formula of finish_cov counts the band entries row by row; its division by 2 is exact -/
+theorem C11_cov_count_formula (dim band : Nat) (hb : band < dim) :
+    covElements dim band = ((List.range dim).map (fun r => min dim (r + 1 + band) - r)).sum ∧
+    band * (band + 1) % 2 = 0 :=
+  ⟨covElements_eq_sum dim band hb, band_mul_succ_even band⟩
+
+/-- linear indices: a written position has its place in the row-by-row enumeration below `covElements`, and its
+    `BandMat::operator()` offset `(r-1)*(band+1) + (c-r)` lies inside the `dim*(band+1)` numbers allocated by
+    `cov_mat.reset(idim, iband)` -/
+theorem C11_cov_linear_index (dim band : Nat) (text : List Char) (ps : List (Nat × Nat)) (hb : band < dim)
+    (h : finishCov dim band text = .ok ps) (q : Nat × Nat) (hq : q ∈ ps) :
+    ps.idxOf q < covElements dim band ∧ (q.1 - 1) * (band + 1) + (q.2 - q.1) < dim * (band + 1) := by
+  obtain ⟨_, h2, _, h4, _, _⟩ := C11_cov_fill_in_bounds dim band text ps hb h
+  obtain ⟨b1, b2, b3, b4⟩ := h4 q hq
+  exact ⟨h2 ▸ List.idxOf_lt_length_iff.mpr hq, band_storage_index dim band q.1 q.2 b1 b2 b3 b4⟩
+
+/-- acceptance is exactly "`covElements` blank-separated words, all numbers" -/
+theorem C11_cov_accept_iff (dim band : Nat) (text : List Char) :
+    (∃ ps, finishCov dim band text = .ok ps) ↔
+      ((words text).length = covElements dim band ∧ ∀ w ∈ words text, isFloat w = true) :=
+  ⟨fun ⟨ps, h⟩ => ⟨((fill_ok_iff dim band _ _ _ ps).mp h).1, ((fill_ok_iff dim band _ _ _ ps).mp h).2.1⟩,
+   fun ⟨h1, h2⟩ => finishCov_complete dim band text h1 h2⟩
+
+/-- surplus elements are refused before the write (the `elements == 0` test precedes `cov_mat(row,col) = d`):
+    with more words than `covElements` no fill succeeds, and if the first `covElements` words are numbers the
+    verdict is "too many elements" -/
+theorem C11_cov_surplus_refused (dim band : Nat) (text : List Char)
+    (hlen : covElements dim band < (words text).length) :
+    (∀ ps, finishCov dim band text ≠ .ok ps) ∧
+    ((∀ w ∈ (words text).take (covElements dim band), isFloat w = true) →
+      finishCov dim band text = .error .too_many) :=
+  ⟨fun ps => fill_surplus_not_ok dim band _ _ _ ps hlen, fun hf => fill_too_many dim band _ _ _ hlen hf⟩
+
+/-- through `process_cov`: a `<cov-mat>` with verdict `ok` has `dim`, `band` read by `toIndex`, `1 ≤ dim`,
+    `band < dim`, and its writes are exactly the distinct upper band positions, all inside the matrix -/
+theorem C11_cov_verdict_in_bounds (sdim sband text : List Char) (h : verdict sdim sband text = .ok) :
+    ∃ d b ps, toIndex sdim = some d ∧ toIndex sband = some b ∧ 1 ≤ d ∧ b < d ∧
+      finishCov d b text = .ok ps ∧ ps.length = covElements d b ∧ ps.Nodup ∧
+      ∀ q, q ∈ ps ↔ (1 ≤ q.1 ∧ q.1 ≤ q.2 ∧ q.2 ≤ d ∧ q.2 ≤ q.1 + b) := by
+  obtain ⟨d, b, ps, hp, hf⟩ := verdict_ok sdim sband text h
+  obtain ⟨h1, h2, h3, h4⟩ := processCov_ok sdim sband d b hp
+  obtain ⟨_, g2, _, _, g5, _⟩ := C11_cov_fill_in_bounds d b text ps h2 hf
+  exact ⟨d, b, ps, h3, h4, h1, h2, hf, g2, g5, C11_cov_writes_exactly_band d b text ps h2 hf⟩
 
 /-- every `finish_*` that installs a `<cov-mat>` compares its `dim` with the number of observations of the
     cluster (generated from the presence of the `idim != …observation_list.size()` guard): otherwise a later stage
@@ -168,8 +244,34 @@ example : stop .coords = .goto .point_obs (some .coords_) := by decide
 example : isFloat " +12.5e-3 ".toList = true ∧ isFloat ".5".toList = true ∧ isFloat "5.".toList = true ∧
     isFloat "1e".toList = false ∧ isFloat ".".toList = false ∧ isFloat "1 1".toList = false ∧
     isFloat "+".toList = false ∧ isFloat "".toList = false := by decide
-example : isInteger " -12 ".toList = true ∧ isInteger "1.0".toList = false ∧ isInteger " ".toList = false := by decide
+/-- `FloatLang` is inhabited by an explicit decomposition (hypothesis of the completeness direction) … -/
+example : FloatLang " +12.5e-3 ".toList :=
+  ⟨[' '], "+12.5e-3".toList, [' '], by decide, by unfold AllSpace; decide, by unfold AllSpace; decide,
+   ['+'], ['1', '2'], ['.'], ['5'], "e-3".toList, by decide, Or.inr (Or.inl rfl), by unfold AllDigit; decide,
+   Or.inr rfl, by unfold AllDigit; decide, Or.inl (by decide),
+   Or.inr ⟨'e', ['-'], ['3'], by decide, Or.inr (Or.inr rfl), by unfold AllDigit; decide, by decide, by decide⟩⟩
+/-- … and the specification refuses what the scanner refuses: `"1e"`, `"."`, `"1 1"` are not in `FloatLang` -/
+example : ¬ FloatLang "1e".toList ∧ ¬ FloatLang ".".toList ∧ ¬ FloatLang "1 1".toList :=
+  ⟨fun h => absurd ((C11_isFloat_spec _).mpr h) (by decide), fun h => absurd ((C11_isFloat_spec _).mpr h) (by decide),
+   fun h => absurd ((C11_isFloat_spec _).mpr h) (by decide)⟩
+example : Mantissa "12.5".toList ∧ Mantissa ".5".toList ∧ Mantissa "5.".toList :=
+  ⟨Or.inl ⟨['1', '2'], ['5'], by unfold AllDigit; decide, by decide, by unfold AllDigit; decide, Or.inr (by decide)⟩,
+   Or.inr ⟨['5'], by unfold AllDigit; decide, by decide, by decide⟩,
+   Or.inl ⟨['5'], [], by unfold AllDigit; decide, by decide, by unfold AllDigit; decide, Or.inr (by decide)⟩⟩
+example : isInteger " -12 ".toList = true ∧ isInteger "1.0".toList = false ∧ isInteger " ".toList = false ∧
+    isInteger "+".toList = false ∧ isInteger " - ".toList = false := by decide
+example : IntLang " -12 ".toList :=
+  ⟨[' '], ['-'], ['1', '2'], [' '], by decide, by unfold AllSpace; decide, by unfold AllSpace; decide,
+   Or.inr (Or.inr rfl), by unfold AllDigit; decide, by decide⟩
+/-- a lone sign is outside the integer language of the current source -/
+example : ¬ IntLang "+".toList ∧ ¬ IntLang " - ".toList :=
+  ⟨fun h => absurd ((C11_isInteger_spec _).mpr h) (by decide), fun h => absurd ((C11_isInteger_spec _).mpr h) (by decide)⟩
 example : toIndex " 012 ".toList = some 12 ∧ toIndex "+1".toList = none ∧ toIndex "1 2".toList = none := by decide
+example : IndexLang " 012 ".toList 12 :=
+  ⟨[' '], ['0', '1', '2'], [' '], by decide, by unfold AllSpace; decide, by unfold AllSpace; decide,
+   by unfold AllDigit; decide, by decide, by decide⟩
+example : ¬ IndexLang "+1".toList 1 ∧ ¬ IndexLang " 012 ".toList 13 :=
+  ⟨fun h => absurd ((C11_toIndex_spec _ _).mpr h) (by decide), fun h => absurd ((C11_toIndex_spec _ _).mpr h) (by decide)⟩
 example : deg2gonAccepts "10-20-30.5".toList = true ∧ deg2gonAccepts "-+5-10-20".toList = true ∧
     deg2gonAccepts "1-2".toList = false ∧ deg2gonAccepts "1-2-.5".toList = false := by decide
 
@@ -181,5 +283,19 @@ example : verdict "3".toList "1".toList "1 2 3 4".toList = .not_enough ∧
     verdict " 2 ".toList "1".toList "4 1 4".toList = .ok := by decide
 example : ∀ dim ∈ [1, 2, 3, 4, 5], ∀ band ∈ List.range dim,
     covElements dim band = ((List.range dim).map (fun r => min dim (r + 1 + band) - r)).sum := by decide
+/-- hypotheses of `C11_cov_fill_in_bounds` / `_writes_exactly_band` / `_linear_index` are satisfiable (band < dim, accepted text) -/
+example : (1 : Nat) < 3 ∧ (finishCov 3 1 " 1 2 3 4 5 ".toList).toOption = some [(1,1), (1,2), (2,2), (2,3), (3,3)] ∧
+    (finishCov 4 3 "1 2 3 4 5 6 7 8 9 10".toList).toOption =
+      some [(1,1), (1,2), (1,3), (1,4), (2,2), (2,3), (2,4), (3,3), (3,4), (4,4)] ∧
+    (finishCov 1 0 "7".toList).toOption = some [(1,1)] := by decide
+/-- without `band < dim` (never passed on by process_cov) the closed formula is NOT the band count: the hypothesis matters -/
+example : covElements 2 3 = 2 ∧ ((List.range 2).map (fun r => min 2 (r + 1 + 3) - r)).sum = 3 := by decide
+/-- hypothesis of `C11_cov_surplus_refused`: six words for five entries; the sixth is not even looked at -/
+example : covElements 3 1 < (words "1 2 3 4 5 x".toList).length ∧
+    (∀ w ∈ (words "1 2 3 4 5 x".toList).take (covElements 3 1), isFloat w = true) ∧
+    verdict "3".toList "1".toList "1 2 3 4 5 x".toList = .too_many ∧
+    verdict "3".toList "1".toList "1 2 x 4 5 6".toList = .bad_element := by decide
+/-- hypothesis of `C11_cov_verdict_in_bounds` -/
+example : verdict " 3 ".toList "1".toList " 1 2 3 4 5 ".toList = .ok := by decide
 
 end Gama.Props.C11
